@@ -3,7 +3,8 @@ projection of a real history onto one slice instance (model actions + observed s
 Lean driver), and the implementation oracles of the protocol properties.  Stdlib only."""
 import json, struct
 
-SYS_DETECT = {"A": "sync_detect<CompA>", "B": "sync_detect<CompB>", "E": "sync_detect<CompE>", "V": "sync_detect<CompV>",
+SYS_DETECT = {"PointLight": "sync_detect<PointLight>", "SpotLight": "sync_detect<SpotLight>", "DirLight": "sync_detect<DirectionalLight>",
+              "A": "sync_detect<CompA>", "B": "sync_detect<CompB>", "E": "sync_detect<CompE>", "V": "sync_detect<CompV>",
               "Transform": "sync_detect<Transform>", "Name": "sync_detect<Name>", "Visibility": "sync_detect<Visibility>"}
 
 
@@ -356,3 +357,83 @@ def skin_cases(h):
                 exp = ".".join(map(str, e["skinned"]["joints_local"])) or "-"
                 out.append("skin %s/%d/%d E2U %s U2E %s JOINTS %s EXPECT %s" % (h.id, k, p, e2u.replace(" ", ",") or "-", u2e.replace(" ", ",") or "-", jl, exp))
     return out, fails
+
+
+# ------------------------------------------------------------------ C17: companions of replicated render components
+
+FIX_SYSTEMS = ["fix_visibility_bundle", "fix_missing_global_transforms", "fix_missing_cubemap_frusta",
+               "fix_missing_cubemap_visible_entities", "fix_missing_cubemap_frustum_spot", "fix_missing_cubemap_frusta_directional",
+               "fix_missing_cubemap_visible_entities_directional", "fix_missing_cascades_directional",
+               "fix_missing_cascades_shadow_config_directional"]
+KIND_TOK = {"Transform": "transform", "Visibility": "visibility", "PointLight": "pointLight", "SpotLight": "spotLight", "DirLight": "dirLight"}
+COMPANIONS = {"Transform": ["GlobalTransform"], "Visibility": ["InheritedVisibility", "ViewVisibility"],
+              "PointLight": ["CubemapFrusta", "CubemapVisibleEntities"], "SpotLight": ["Frustum"],
+              "DirLight": ["CascadesFrusta", "CascadesVisibleEntities", "Cascades", "CascadeShadowConfig"]}
+ALL_COMPANIONS = ["GlobalTransform", "InheritedVisibility", "ViewVisibility", "CubemapFrusta", "CubemapVisibleEntities", "Frustum",
+                  "CascadesFrusta", "CascadesVisibleEntities", "Cascades", "CascadeShadowConfig"]
+
+
+def fix_cases(h, reinserts):
+    """per peer: the fix machinery of that peer replayed on the model, plus the oracle"""
+    lines, fails = [], []
+    fc = next((e for e in h.events if e["ev"] == "fix_case"), None)
+    if fc is None:
+        return lines, fails
+    uuid = next((b["uuid"] for b in h.events if b["ev"] == "bind" and b["h"] == fc["h"]), None)
+    if uuid is None:
+        return lines, fails
+    start = h.events.index(fc)
+    # frames before the case: find for each peer the index from which we replay (entity known, nothing of the kinds present)
+    for p in h.peers():
+        script = []
+        sched = None
+        for ev in h.events:
+            if ev["ev"] == "sched" and ev["peer"] == p:
+                sched = ev["order"]
+        have = {k: False for k in KIND_TOK}
+        comp_present = set()
+        first_seen = {}
+        frame_no = 0
+        prev_val = {}
+        for ev in h.events[start:]:
+            if ev["ev"] == "sched" and ev["peer"] == p:
+                sched = ev["order"]
+            elif ev["ev"] == "op" and ev["op"] == "add_companions" and ev["peer"] == p:
+                for k in ev["kinds"]:
+                    for c in COMPANIONS[k]:
+                        script.append("ac:%s" % c)
+                        comp_present.add(c)
+            elif ev["ev"] == "op" and ev["op"] == "write" and ev["peer"] == p and ev.get("uuid") == uuid and ev["val"]["ty"] in KIND_TOK:
+                # a local write lands before the peer's next frame
+                script.append("ar:%s:%d" % (KIND_TOK[ev["val"]["ty"]], ev["val"]["n"]))
+                have[ev["val"]["ty"]] = True
+            elif ev["ev"] == "frame" and ev["peer"] == p and ev.get("state") is not None:
+                frame_no += 1
+                order = [str(FIX_SYSTEMS.index(s)) for s in (sched or []) if s in FIX_SYSTEMS]
+                script.append("fr:" + ".".join(order))
+                e = ent_of(ev["state"], uuid)
+                if e is None:
+                    continue
+                # values that arrived from the network in this frame land at its end, after the fix systems ran
+                for k in KIND_TOK:
+                    v = e["comps"].get(k)
+                    if v is not None and prev_val.get(k) != v and not have[k]:
+                        script.append("ar:%s:%d" % (KIND_TOK[k], 0))
+                        have[k] = True
+                        first_seen[k] = frame_no
+                    elif v is not None and k not in first_seen:
+                        first_seen.setdefault(k, frame_no - 1)
+                    prev_val[k] = v
+                script.append("x:" + ".".join(sorted(e["companions"])) if e["companions"] else "x:-")
+                # oracle: one frame after a kind landed all its companions are present
+                for k, f0 in first_seen.items():
+                    if frame_no >= f0 + 1:
+                        missing = [c for c in COMPANIONS[k] if c not in e["companions"]]
+                        if missing:
+                            fails.append(("C17", "peer %d: %s landed but %s is still missing a frame later" % (p, k, missing[0]), {"case": fc}))
+                if fc["present"] and p != fc["origin"] and "Transform" in fc["kinds"]:
+                    if e.get("gt") not in (None, "411000004110000041100000"):
+                        fails.append(("C17", "peer %d: an already present GlobalTransform was overwritten" % p, {"case": fc}))
+        if script:
+            lines.append("fixrun %s/%d %d %s" % (h.id, p, 1 if reinserts else 0, ";".join(script)))
+    return lines, fails
